@@ -2439,6 +2439,13 @@ impl InferContext {
                                     this.convert_unknown_to_intermediate(id.ty, id.ty.to_loc());
                                 let annotated_ty = this.resolve_type_alias(annotated_ty);
                                 let ity = this.instantiate(annotated_ty);
+                                // a default value determines the type of its parameter
+                                if let Some(default) = id.default_value {
+                                    let dty = this.infer_type_unwrapping(default);
+                                    if let Err(e) = this.unify_types(ity, dty) {
+                                        this.errors.extend(e);
+                                    }
+                                }
                                 this.env.add_bind(&[(id.id, (ity, this.stage))]);
                                 RecordTypeField {
                                     key: id.id,
